@@ -25,7 +25,7 @@ HERE = os.path.dirname(os.path.abspath(__file__))
 sys.path.insert(0, HERE)
 # a run against a scratch copy (VERIF_REPO set by tools/seed_matrix.sh) must not overwrite the evidence of /repo
 SCRATCH = os.environ.get("VERIF_REPO", "/repo") not in ("/repo", "/repo/")
-OUT = os.path.join(HERE, "out", "scratch") if SCRATCH else HERE
+OUT = os.path.join(HERE, "out", "scratch", os.environ.get("VERIF_OUT_TAG", "")) if SCRATCH else HERE  # parallel scratch runs keep apart
 
 from pyvc import front  # noqa: E402
 from pyvc.run import run_units  # noqa: E402
